@@ -46,7 +46,7 @@ func auxOf(id int) stackage.Auxiliary {
 		return a
 	}
 	a := make(stackage.Auxiliary, id)
-	for i := 0; i < id; i++ {
+	for i := 0; i < id && id < 8; i++ { // ids from 8 on: maps the caller made but has not filled yet (empty, not nil)
 		a["k"+strconv.Itoa(i)] = i
 	}
 	auxStore[id] = a
@@ -68,7 +68,7 @@ func auxNamePtr(isNil bool, p uintptr, n int) string {
 	defer storeMu.Unlock()
 	for id, m := range auxStore {
 		if reflect.ValueOf(m).Pointer() == p {
-			if n != id {
+			if (id < 8 && n != id) || (id >= 8 && n != 0) {
 				return strconv.Itoa(id) + "!"
 			}
 			return strconv.Itoa(id)
